@@ -6,7 +6,9 @@
   * no audio-path loop can hang or underflow: transport wrap loops (any history of valid operations; a
     degenerate loop region never reaches them), static sound in its domain — which is every slice, start
     position and direction: building a sound and stepping it never faults, a lookup never leaves the data —,
-    the clock's tick loop (its result does not depend on the fuel once it covers ⌊timer⌋);
+    the transport's wrap into the loop region and the clock's tick count are closed forms without any loop
+    (equal to the loops the code used to run wherever those returned), `Clock::update` and every history
+    of the clock system return for EVERY speed (`SecondsPerTick(0)`, `1e300` ticks per second included);
   * the resource queues cannot overflow at the protocol's granularity and the audio thread only moves resources,
     it never destroys them (no free on the audio thread);
   * every effect is defined on its documented ranges (no zero divisor, no square root of a negative), the reverb
@@ -30,6 +32,13 @@ alias C01_static_sound_never_faults := C04_in_domain_never_faults
 alias C01_any_static_sound_starts := C04_any_sound_starts
 alias C01_static_lookup_in_bounds := C04_never_outside_slice
 alias C01_tick_loop_terminates := C05_tick_loop_fuel_independent
+alias C01_tick_count_eq_loop := C05_tick_count_eq_loop
+alias C01_clock_update_never_hangs := C05_update_never_hangs
+alias C01_clock_system_never_hangs := C05_no_history_hangs
+alias C01_infinite_clock_speed_saturates := C05_infinite_speed_saturates
+alias C01_clock_speed_tween_never_nan := C05_speed_interpolation_never_nan
+alias C01_wrap_closed_form_eq_loop := C04_wrap_closed_form_eq_loop
+alias C01_wrap_lands_in_region := C04_wrap_lands_in_region
 alias C01_resource_queues_bounded := C08_queue_bounds_partial
 alias C01_audio_thread_never_frees := C08_destroyed_off_audio_thread
 alias C01_filter_defined := C13_filter_defined
